@@ -3,7 +3,7 @@
 All tables are finite and are extracted completely (MIR decision trees, evaluated constants):
 codes, next/prev, char tables (every `char` by interval partition), the 52 bit masks and the
 if-cascade decoding them, RANKS/SUITS, range constructors and slicing, Display/FromStr of Card."""
-from sa import dtree, fmt, idioms as I, prov as P
+from sa import dtree, fmt, idioms as I, loops as L, prov as P
 from sa.report import Unrecognised
 
 RANK = "card::rank::Rank"
@@ -164,13 +164,159 @@ def check_enum(ctx, F, adt, order, chars):
     return code_fn
 
 
+def fold_rank_fn(F, fn, rule):
+    """{rank: term} of a loop-free `fn(&Rank) -> Option<Rank>` written over the rank's u8 code, constant tables of ranks and
+    checked arithmetic: every branch condition and the result are folded for the concrete code of each rank"""
+    try:
+        paths, pr = dtree.enumerate_paths(fn)
+    except dtree.NotLoopFree:
+        raise U(rule, f"{fn.path} contains a loop", fn)
+    code_fn = F.impl_fn(f"std::convert::From<&{RANK}>", "u8", "from")
+    codes = {k: I.int_leaf(v) for k, v in I.enum_match_table(F, code_fn, RANK).items()}
+
+    class Bad(Exception):
+        pass
+
+    def table_of(t):
+        t = P.strip(t)
+        while t[0] == "cast" and t[1] == "PointerCoercion":
+            t = P.strip(t[2])
+        if t[0] == "named":
+            v = F.const_value(t[1])
+            if v and "array" in v and all(isinstance(e, str) for e in v["array"]):
+                return v["array"]
+        raise Bad(f"not a constant table of ranks: {P.show(t)[:60]}")
+
+    def ev(t, r, depth=0):
+        if depth > 40:
+            raise Bad("term too deep")
+        c = P.const_int(t)
+        if c is not None:
+            return c
+        k = t[0]
+        if k in ("ref", "deref"):
+            return ev(t[1], r, depth + 1)
+        if k == "cast" and t[1] == "IntToInt":
+            return ev(t[2], r, depth + 1)
+        if k == "param" and t[1] == 1:
+            return ("rank", r)
+        if k == "call":
+            nm = t[1].rsplit("::", 1)[-1]
+            g = F.fns.get(t[1])
+            if g is not None and len(t[2]) == 1 and I.resolve_forwarding(F, g) is code_fn:
+                a = ev(t[2][0], r, depth + 1)
+                if isinstance(a, tuple) and a[0] == "rank":
+                    return codes[a[1]]
+                raise Bad("code of something that is not the rank")
+            if P.is_widening_from(t[1]) and len(t[2]) == 1:
+                return ev(t[2][0], r, depth + 1)
+            if nm in ("checked_sub", "checked_add") and t[1].startswith("core::num::") and len(t[2]) == 2:
+                a, b = ev(t[2][0], r, depth + 1), ev(t[2][1], r, depth + 1)
+                if not (isinstance(a, int) and isinstance(b, int)):
+                    raise Bad("checked arithmetic on non-integers")
+                v = a - b if nm == "checked_sub" else a + b
+                return ("some", v) if v >= 0 else ("none",)
+            if t[1] == "core::slice::<impl [T]>::get" and len(t[2]) == 2:
+                tab_, i = table_of(t[2][0]), ev(t[2][1], r, depth + 1)
+                if not isinstance(i, int):
+                    raise Bad("table index is not an integer")
+                return ("some", ("rank", tab_[i])) if 0 <= i < len(tab_) else ("none",)
+            if t[1] in ("std::option::Option::<&T>::copied", "std::option::Option::<&T>::cloned") and len(t[2]) == 1:
+                return ev(t[2][0], r, depth + 1)
+            if nm == "clone" and len(t[2]) == 1:
+                return ev(t[2][0], r, depth + 1)
+            raise Bad(f"call outside the folded subset: {t[1]}")
+        if k == "bin" and t[1] in ("Add", "Sub"):
+            a, b = ev(t[2], r, depth + 1), ev(t[3], r, depth + 1)
+            if not (isinstance(a, int) and isinstance(b, int)):
+                raise Bad("arithmetic on non-integers")
+            v = a + b if t[1] == "Add" else a - b
+            if v < 0:
+                raise Bad("negative intermediate value")
+            return v
+        if k == "agg" and t[1] == "adt:std::option::Option::Some" and len(t[2]) == 1:
+            return ("some", ev(t[2][0], r, depth + 1))
+        if k == "agg" and t[1] == "adt:std::option::Option::None":
+            return ("none",)
+        if k == "agg" and t[1].startswith("adt:" + RANK + "::") and not t[2]:
+            return ("rank", t[1].rsplit("::", 1)[-1])
+        if k == "enumc" and t[1] == RANK:
+            return ("rank", t[2])
+        if k == "index":
+            tab_, i = table_of(t[1]), ev(t[2], r, depth + 1)
+            if not isinstance(i, int) or not (0 <= i < len(tab_)):
+                raise Bad("table index out of range")
+            return ("rank", tab_[i])
+        if k == "field" and t[1][0] == "variant" and t[1][2] == "Some" and t[2] == 0:
+            v = ev(t[1][1], r, depth + 1)
+            if isinstance(v, tuple) and v[0] == "some":
+                return v[1]
+            raise Bad("payload of a None")
+        if k == "discr":
+            v = ev(t[1], r, depth + 1)
+            if isinstance(v, tuple) and v[0] in ("some", "none"):
+                return 1 if v[0] == "some" else 0
+            raise Bad("discriminant of a non-Option")
+        if k == "phi":
+            raise Bad("value depends on the path")
+        raise Bad(f"term outside the folded subset: {k}")
+    out = {}
+    for r in RANK_ORDER:
+        hits = []
+        for p in paths:
+            pp = dtree.PathProv(fn, p)
+            feas = True
+            try:
+                for (b, t, lab, ty, others) in p.conds:
+                    on = fn.blocks[b]["term"]["on"]
+                    # (provenance of the path prefix that reaches this switch: later assignments must not be seen)
+                    pre = dtree.Path(p.blocks[:p.blocks.index(b) + 1], [], "stop", b)
+                    v = ev(dtree.PathProv(fn, pre).operand(on), r)
+                    if not isinstance(v, int):
+                        raise Bad("branch on a non-integer")
+                    if lab == "otherwise":
+                        if v in others:
+                            feas = False
+                    elif v != lab:
+                        feas = False
+                    if not feas:
+                        break
+            except Bad:
+                # a condition that cannot be folded on this path prefix: the path is only excluded if an earlier condition failed
+                raise U(rule, f"{fn.path}: a branch condition is outside the folded subset", fn)
+            if feas:
+                hits.append((p, pp))
+        if len(hits) != 1:
+            raise U(rule, f"{fn.path}: {len(hits)} feasible paths for {r}", fn)
+        p, pp = hits[0]
+        if p.end != "return":
+            out[r] = None
+            continue
+        try:
+            v = ev(pp.local(0), r)
+        except Bad as e:
+            raise U(rule, f"{fn.path}: result for {r} is outside the folded subset ({e})", fn)
+        if v == ("none",):
+            out[r] = ("agg", "adt:std::option::Option::None", ())
+        elif isinstance(v, tuple) and v[0] == "some" and isinstance(v[1], tuple) and v[1][0] == "rank":
+            out[r] = ("agg", "adt:std::option::Option::Some", (("agg", f"adt:{RANK}::{v[1][1]}", ()),))
+        else:
+            raise U(rule, f"{fn.path}: result for {r} is not an Option<Rank>: {v}", fn)
+    return out
+
+
 def check_next_prev(ctx, F):
     rule = "C13.rank-next-prev"
     ctx.rule(rule, "Rank::next/prev move one step in declaration order, None exactly at the ends, mutually inverse")
     for name, step in (("next", 1), ("prev", -1)):
         fn = F.fn(f"{RANK}::{name}")
         ctx.analysed([fn])
-        tab = I.enum_match_table(F, fn, RANK)
+        try:
+            tab = I.enum_match_table(F, fn, RANK)
+        except Unrecognised:
+            # table form: `TABLE.get(code(self) + 1).copied()` / `code(self).checked_sub(1).map(|i| TABLE[i])`: folded for each
+            # of the 13 ranks with the rank's code (loop-free, so one feasible path per rank)
+            tab = fold_rank_fn(F, fn, rule)
         for i, n in enumerate(RANK_ORDER):
             t = tab.get(n)
             j = i + step
@@ -321,6 +467,10 @@ def check_masks(ctx, F):
             ctx.violation(rule, f"{enc.path}|{rk}-{st}", f"u64::from(Card({rk},{st})) = {v:#x}: not a distinct single bit among the low 52"
                           + (f" (same as {seen[v]})" if v in seen else ""), fn=enc.path, file=enc.file, line=enc.line)
         seen.setdefault(v, (rk, st))
+    # decoder, table-scan form: `TABLE.iter().find(|(mask, _)| value & mask != 0).map(|&(_, v)| v)` for the suit and for the rank
+    # (constant tables of (mask, variant) pairs, first overlapping entry wins -- the same decision list as the if/else cascade)
+    if dec.cfg.has_loops():
+        return check_decoder_tables(ctx, F, rule, dec, bits)
     # decoder: evaluate the cascade's path conditions on each of the 52 bits
     dpaths, dpr = dtree.enumerate_paths(dec)
     ctor = None
@@ -411,6 +561,114 @@ def check_masks(ctx, F):
             ctx.violation(rule, f"{dec.path}|{rk}-{st}", f"Card::from(&{v:#x}) gives {got}; that bit encodes ({rk}, {st})",
                           fn=dec.path, file=dec.file, line=dec.line)
     for nm, a, b in ((f"std::convert::From<{CARD}>", "u64", enc), ("std::convert::From<u64>", CARD, dec)):
+        f2 = F.impl_fn(nm, a, "from")
+        if I.forwarding_target(F, f2) is b:
+            ctx.ok(rule, f"{f2.path} forwards to the by-reference conversion")
+        else:
+            ctx.violation(rule, f"{f2.path}|not-forwarding", "by-value conversion does not forward to the by-reference one",
+                          fn=f2.path, file=f2.file, line=f2.line)
+
+
+def check_decoder_tables(ctx, F, rule, dec, bits):
+    pr = P.Prov(dec)
+    fl = L.for_loops(dec, pr)
+    if len(fl) != 2 or len(dec.cfg.loops()) != 2:
+        raise U(rule, f"Card::from(&u64) has {len(dec.cfg.loops())} loops; expected one table scan for the suit and one for the rank", dec)
+    value = ("deref", ("param", 1))
+    scans = {}
+    loop_sw = {dec.blocks[lp.next_block]["term"]["to"] for lp in fl}
+    for lp in fl:
+        src, chain = lp.chain()
+        s_ = P.strip(src)
+        if s_[0] != "named" or any(c.rsplit("::", 1)[-1] not in ("iter", "into_iter", "copied") for c in chain):
+            raise U(rule, f"decoder loop does not walk a constant table directly: {P.show(src)[:60]} via {chain}", dec)
+        tv = F.const_value(s_[1])
+        if not tv or "array" not in tv or not all(isinstance(e, list) and len(e) == 2 and isinstance(e[0], int) and isinstance(e[1], str) for e in tv["array"]):
+            raise U(rule, f"{s_[1]} is not a constant table of (mask, variant) pairs", dec)
+        item = P.strip(lp.item_term)
+        hits = []
+        for b, lab, op, x, y in I.rel_edges(dec, pr, F):
+            if b not in lp.body or b in loop_sw:
+                continue
+            if any(b in l2.body for l2 in fl if l2 is not lp and len(l2.body) < len(lp.body)):
+                continue
+            hits.append((b, lab, op, x, y))
+        blocks_ = {h[0] for h in hits}
+        if len(blocks_) != 1:
+            raise U(rule, f"the scan of {s_[1]} tests {len(blocks_)} conditions per entry; expected one (mask & value != 0)", dec)
+        hit_edge = None
+        for (b, lab, op, x, y) in hits:
+            xs, ys = P.strip(x), P.strip(y)
+            if P.const_int(xs) is not None:
+                xs, ys, op = ys, xs, I.FLIP[op]
+            c = P.const_int(ys)
+            a_, b_ = None, None
+            if xs[0] == "bin" and xs[1] == "BitAnd":
+                a_, b_ = P.strip(xs[2]), P.strip(xs[3])
+            elif xs[0] == "call" and xs[1].rsplit("::", 1)[-1] == "bitand" and "std::ops::BitAnd" in xs[1] and len(xs[2]) == 2:
+                a_, b_ = P.strip(xs[2][0]), P.strip(xs[2][1])
+            def unref(u):
+                u = P.strip(u)
+                return ("field", unref(u[1]), u[2]) if u[0] == "field" else u
+            mask_t = ("field", item, 0)
+            is_mask = [unref(u) == mask_t for u in (a_, b_)] if a_ is not None else []
+            is_val = [P.strip(u) == ("param", 1) for u in (a_, b_)] if a_ is not None else []
+            ok_operands = a_ is not None and sorted(is_mask) == [False, True] and sorted(is_val) == [False, True]
+            nonzero = (op, c) in (("Ne", 0), ("Gt", 0), ("Ge", 1))
+            zero = (op, c) in (("Eq", 0), ("Lt", 1), ("Le", 0))
+            if not ok_operands or not (nonzero or zero):
+                raise U(rule, f"the scan of {s_[1]} does not test `mask & value != 0`: {P.show(x)[:60]} {op} {P.show(y)[:20]}", dec)
+            tgt = [t_ for l2, t_ in dec.cfg.succ_edges[b] if l2 == lab][0]
+            back = I.reachable_avoiding(dec, [], start=tgt, removed_blocks=[lp.exit_block] + [x_ for x_ in dec.cfg.reachable if x_ not in lp.body])
+            if nonzero:
+                hit_edge = (b, lab)
+                if lp.header in back or tgt == lp.header:
+                    raise U(rule, f"the scan of {s_[1]} goes on after an entry matched (the first match must win)", dec)
+            else:
+                if lp.header not in back and tgt != lp.header:
+                    raise U(rule, f"the scan of {s_[1]} stops at an entry that does not match", dec)
+        if hit_edge is None:
+            raise U(rule, f"no match test in the scan of {s_[1]}", dec)
+        scans[lp.header] = (lp, s_[1], tv["array"], item)
+    # the card is built from the matched entries' variants
+    ret = P.strip(pr.local(0), calls=False)
+    ops = None
+    if ret[0] == "call" and ret[1] in F.fns and len(ret[2]) == 2:
+        r2 = P.Prov(F.fns[ret[1]]).local(0)
+        if r2[0] == "agg" and r2[1] == f"adt:{CARD}::Card" and [P.strip(x) for x in r2[2]] == [("param", 1), ("param", 2)]:
+            ops = list(ret[2])
+    elif ret[0] == "agg" and ret[1] == f"adt:{CARD}::Card":
+        ops = list(ret[2])
+    if ops is None:
+        raise U(rule, f"decoder result is not Card::new(rank, suit): {P.show(ret)[:80]}", dec)
+    fields = F.adts[CARD]["variants"][0]["fields"]
+    which = {}
+    for k, o in enumerate(ops):
+        o = P.strip(P.narrow_deep(P.strip(o)))
+
+        def unref2(u):
+            u = P.strip(u)
+            return ("field", unref2(u[1]), u[2]) if u[0] == "field" else u
+        srcs = [h for h, (lp, nm, arr, item) in scans.items() if unref2(o) == ("field", item, 1)]
+        if len(srcs) != 1:
+            raise U(rule, f"card field {k} is not the variant of the entry matched by one of the scans: {P.show(o)[:80]}", dec)
+        which[fields[k]["ty"]] = scans[srcs[0]]
+    if set(which) != {RANK, SUIT}:
+        raise U(rule, "decoder does not fill rank and suit from the two scans", dec)
+
+    def first(arr, v):
+        for mask, var in arr:
+            if mask & v:
+                return var
+        return None
+    for (rk, st), v in sorted(bits.items()):
+        got = (first(which[RANK][2], v), first(which[SUIT][2], v))
+        if got == (rk, st):
+            ctx.ok(rule, f"bit {v.bit_length() - 1} -> {rk}/{st}", sample=(rk == "Ace" and st == "Spade"))
+        else:
+            ctx.violation(rule, f"{dec.path}|{rk}-{st}", f"Card::from(&{v:#x}) gives {got} (first overlapping entries of {which[RANK][1]} / {which[SUIT][1]}); "
+                          f"that bit encodes ({rk}, {st})", fn=dec.path, file=dec.file, line=dec.line)
+    for nm, a, b in ((f"std::convert::From<{CARD}>", "u64", F.impl_fn(f"std::convert::From<&{CARD}>", "u64", "from")), ("std::convert::From<u64>", CARD, dec)):
         f2 = F.impl_fn(nm, a, "from")
         if I.forwarding_target(F, f2) is b:
             ctx.ok(rule, f"{f2.path} forwards to the by-reference conversion")
